@@ -130,3 +130,16 @@ Theorem C06_chain_is_conjunction : forall levels p0 hist fs bottom,
   bottom = fview (fun o => forallb (fun F => F o) fs) (pfold p0 hist).
 Proof. exact chain_is_conjunction. Qed.
 Print Assumptions C06_chain_is_conjunction.
+
+(* end to end, per key: the root cache performs ANY sequence of syncs, watch
+   updates and refilters (its events on the key are a well-formed history:
+   C02_cache_emits_wf_history); below it hangs a chain of filtered nodes of ANY
+   depth with ANY interleavings.  When every node is ready and has consumed
+   everything, the entry at the bottom is the conjunction of the filters most
+   recently set along the chain applied to the root cache's entry *)
+From KC Require Import CacheEvents CacheHistory.
+Theorem C06_tree_converges_to_root_cache : forall F0 ops k levels fs bottom,
+  chain None (kevs k (ops_events (init_state F0) ops)) levels = Some (fs, bottom) ->
+  bottom = fview (fun o => forallb (fun F => F o) fs) (clookup k (c_items (run_ops (init_state F0) ops))).
+Proof. exact tree_converges_to_root_cache. Qed.
+Print Assumptions C06_tree_converges_to_root_cache.
